@@ -107,7 +107,8 @@ class Line:
         # Set the number of values (const descriptor).
         self.n = len(points)
 
-        points = np.array(points)
+        # points of a one-dimensional mesh are plain numbers: one column
+        points = np.array(points).reshape((len(points), -1))
         values = np.array(values).reshape((points.shape[0], -1))
 
         self.data = pd.DataFrame()
